@@ -23,7 +23,9 @@ RULE = ('(tcpcl) two-endpoint histories as in C01/C09 (sends, pops, terminate, s
         '(BP agent + the real bp.cla adaptors + TCPCL and UDPCL agents, virtual message bus, simulated network): bundles are '
         'originated, sessions terminated / closed and re-made; the adaptor, as the consumer of the finished signals, must '
         'hand every transfer that completed on the wire to the BP agent once, with the sender octets, leave the receive queues '
-        'empty, and every value crossing the bus in either direction must marshal against the declared signature.  Non-trivial = a query '
+        'empty, and every value crossing the bus in either direction must marshal against the declared signature; over impaired datagram '
+        'networks (every UDP datagram / Ethernet frame twice and / or out of order) a second copy of a bundle may be announced and handed over, '
+        'but nothing that no peer sent, and the queues still drain.  Non-trivial = a query '
         'landed while a transfer was mid-flight; distinct by SHA-1 of the case.')
 SHRINK_KEYS = ('ops',)
 ASSUMPTIONS = [
@@ -61,7 +63,7 @@ def strategy(tier):
     try:
         from vlib import udpcl_machine as um
         from vlib import stack_world as sw
-        return st.one_of(tcp, tcp, um.cases().map(lambda c: dict(c, kind='udpcl')), sw.cases(), peer_value_cases())
+        return st.one_of(tcp, tcp, um.cases().map(lambda c: dict(c, kind='udpcl')), sw.cases(netfault=True), peer_value_cases())
     except ImportError:
         return tcp
 
@@ -104,6 +106,10 @@ def pinned_cases():
                                        ['query', 'A', 'is_secure'], ['send', 'B', 5, 2], ['run', [0, 1] * 10]]}
     yield 'stack-reconnect', {'kind': 'stack', 'keepalive': 0, 'hops': ['tcpcl', 'udpcl'], 'umtu': 100, 'rmtu': None, 'size': 300,
                               'ops': [['send', 1, 3, True, 0], ['cut', 2], ['send', 3, 1, False, 1], ['send', 1, 3, True, 1]]}
+    for fault in ('dup', 'dup-late', 'reverse-dup'):
+        yield 'stack-netfault-%s' % fault, {'kind': 'stack', 'keepalive': 0, 'hops': ['udpcl', 'btpu'], 'umtu': 100, 'emtu': 100, 'rmtu': None,
+                                            'size': 300, 'netfault': fault,
+                                            'ops': [['send', 1, 3, True, 1], ['send', 3, 1, False, 0], ['send', 1, 3, True, 0], ['wait', 1000]]}
     yield 'stack-finish-then-terminate', {'kind': 'stack', 'hops': ['tcpcl', 'tcpcl'], 'keepalive': 10, 'rmtu': 150, 'size': 8, 'umtu': None,
                                           'ops': [['send', 1, 3, True, 0], ['send', 3, 2, False, 0], ['cut', 2], ['send', 1, 2, True, 1]]}
     yield 'pop-to-unwritable-file', {'kind': 'tcpcl', 'cfg': cfg,
@@ -429,6 +435,10 @@ def execute_stack(case, out):
                 out.count('handed-to-bp')
                 if data in pool:
                     pool.remove(data)
+                elif case.get('netfault') and data in wire.get(index, []):
+                    # an impaired datagram network delivered the datagrams of this bundle twice: the convergence layer
+                    # announces (under a new ID) and hands over a second copy
+                    out.count('handed-again-after-network-duplicate')
                 else:
                     out.fail('handed-not-on-wire', 'the %s adaptor of n%d handed %d octets to the BP agent that no peer sent (or handed '
                              'them twice)' % (cltype, index, len(data)))
@@ -457,7 +467,11 @@ def execute_stack(case, out):
         for esc in world.escapes():
             out.count('stack-escape:%s@%s' % (esc.exc_type, esc.frame))
         out.label('stack')
-        out.nontrivial = info['cut_after_traffic'] and info['resend_after_cut']
+        out.nontrivial = (info['cut_after_traffic'] and info['resend_after_cut']) or world.net_duplicated > 0 or world.net_reordered > 0
+        if world.net_duplicated:
+            out.label('stack:datagrams-duplicated')
+        if world.net_reordered:
+            out.label('stack:datagrams-reordered')
     finally:
         world.close()
 
